@@ -32,9 +32,11 @@ def protocol_classes(prog):
 class Analysis:
     """Everything computed once per tree and shared by the rules of all properties."""
 
-    def __init__(self, sources=None, depth=8):
+    def __init__(self, sources=None, depth=14):
         self.sources = sources if sources is not None else load_sources()
         self.prog = Program(self.sources)
+        from .fieldroles import set_roles
+        set_roles(self.prog.field_roles())
         self.modelled_reflection, self.offending_reflection = closed_world_audit(self.prog)
         if self.offending_reflection:
             raise AnalysisError("closed-world audit: unmodelled reflection %r" % (self.offending_reflection[:3],))
